@@ -8,7 +8,7 @@
    "ck <sfn11>"                        lfn_checksum
    "sn <sfn11>"                        short_name_string -> bytes hex
    "al <name> <fuel> <sfn11> ..."      alias_for -> "ok <sfn11>" | "err <Variant>" | "panic" | "fuel"
-   "dreset" / "dadd <sfn11>" / "ddel <sfn11>" / "dal <name> <fuel>"   the same against a stored directory
+   "dreset" / "drespell <old> <new>" (same entry, same alias, new spelling) / "dadd <sfn11>" / "ddel <sfn11>" / "dal <name> <fuel>"   the same against a stored directory
    "dcreate <name> <fuel>"             alias_for against the stored directory; an Ok alias is added under that name
    "ddelname <name>"                   forget the entry stored under that name -> "ok" | "missing"
    "gen <name>"                        sng_new -> "ok <chksum> <fits> <lossy> <basename_len> <short11>" | "panic"
@@ -85,6 +85,10 @@ let line (t : string list) : string =
      | Some a ->
        let rec rm l = match l with [] -> [] | x :: r -> if x = a then r else x :: rm r in
        dir := rm !dir; dnames := Stdlib.List.remove_assoc n !dnames; "ok"
+     | None -> "missing")
+  | ["drespell"; o; n] ->
+    (match Stdlib.List.assoc_opt o !dnames with
+     | Some a -> dnames := (n, a) :: Stdlib.List.remove_assoc o !dnames; "ok"
      | None -> "missing")
   | ["dadd"; s] -> dir := bytes_of_hex s :: !dir; "ok"
   | ["ddel"; s] ->
